@@ -131,6 +131,8 @@ pub fn wait_fg_job(sh: &mut shell::Shell, gid: i32, pids: &[i32]) -> CommandResu
     let mut cmd_result = CommandResult::new();
     // fg children whose latest report says exited, killed or stopped
     let mut settled: HashSet<i32> = HashSet::new();
+    // those of them whose latest report says stopped
+    let mut stopped: HashSet<i32> = HashSet::new();
     let count_child = pids.len();
     if count_child == 0 {
         return cmd_result;
@@ -138,7 +140,14 @@ pub fn wait_fg_job(sh: &mut shell::Shell, gid: i32, pids: &[i32]) -> CommandResu
     let pid_last = pids.last().unwrap();
 
     loop {
-        let ws = waitpidx(-1, true);
+        // every process has exited or stopped, but a stop report is stale as soon
+        // as the process is continued: before the wait ends on one, the reports
+        // that are already pending are read too, without blocking.
+        let polling = settled.len() >= count_child;
+        let ws = waitpidx(-1, !polling);
+        if polling && !ws.is_error() && !ws.is_others() && ws.get_pid() == 0 {
+            break;
+        }
         // here when we calling waitpidx(), all signals should have
         // been masked. There should no errors (ECHILD/EINTR etc) happen.
         if ws.is_error() {
@@ -159,6 +168,11 @@ pub fn wait_fg_job(sh: &mut shell::Shell, gid: i32, pids: &[i32]) -> CommandResu
                 settled.remove(&pid);
             } else {
                 settled.insert(pid);
+            }
+            if ws.is_stopped() {
+                stopped.insert(pid);
+            } else {
+                stopped.remove(&pid);
             }
         }
 
@@ -201,7 +215,7 @@ pub fn wait_fg_job(sh: &mut shell::Shell, gid: i32, pids: &[i32]) -> CommandResu
             cmd_result.status = status;
         }
 
-        if settled.len() >= count_child {
+        if settled.len() >= count_child && stopped.is_empty() {
             break;
         }
     }
